@@ -65,7 +65,7 @@ def remove_unused(ctx):
         rt = ex.to_term(s, r, LA)
         inres = lambda x: z3.Exists([j], z3.And(0 <= j, j < ln(rt), at(rt, j) == x))
         ctx.oblige(f"post-only-unused-plain-heads-dropped#{n}", s, z3.ForAll([i], z3.Implies(z3.And(0 <= i, i < ln(prg.term), z3.Not(inres(at(prg.term, i)))), droppable(at(prg.term, i)))), replay={"mirror": "remove_unused"})
-        ctx.oblige(f"post-nothing-invented#{n}", s, z3.ForAll([j], z3.Implies(z3.And(0 <= j, j < ln(rt)), z3.Exists([i], z3.And(0 <= i, i < ln(prg.term), at(prg.term, i) == at(rt, j))))), kind="frame", replay={"mirror": "remove_unused"})
+        ctx.oblige(f"post-nothing-invented#{n}", s, z3.ForAll([j], z3.Implies(z3.And(0 <= j, j < ln(rt)), z3.Exists([i], z3.And(0 <= i, i < ln(prg.term), at(prg.term, i) == at(rt, j)))), patterns=[at(rt, j)]), kind="frame", replay={"mirror": "remove_unused"})
     ctx.inputs.clear()
 
 
